@@ -33,13 +33,15 @@ TEXT={
  "C27":("bounded liveness: after the generated API calls every call has returned and PublishRequests keep flowing; the scheduler owns the hand-offs at the pause/resume sends and the select between the two signal channels, which is where the protocol breaks","6 C27"),
  "C28":("every delivered DataChangeMessage must name the node its (node-encoding) value belongs to, and after quiescence the last value delivered per still-monitored node must equal what a Read returns","6 C28"),
  "C29":("real server under hostile generated traffic from real and raw clients with a well-behaved canary; a panic anywhere in the server kills the worker and is the violation; canary reads must finish within 5 simulated seconds and a fresh client must still be able to connect","6 C29"),
+ "C30":("a channel must open iff its (policy, mode) pair is in the configured set; irregular OpenSecureChannel requests must be refused; advertised endpoints must equal the configured pairs","6 C30"),
  "C31":("model-based: expected outcome of every read/write is computed from the access levels the node holds at that moment (read straight from the server object); one-sided as the statement","6 C31"),
  "C32":("model-based: live ids per session tracked by a reference model; every id handed out must differ from all live ones; operations on foreign or unknown ids must be refused and leave the server's tables unchanged (inspected directly)","6 C32"),
  "C33":("every Browse result is compared with an independent filter (direction, reference type with own subtype closure, class mask) over the node's raw reference list exported from the server","6 C33"),
  "C35":("requests of every session service are sent over a bare secure channel with null/random/not-activated/closed tokens; the service result must be Bad and the server's tables unchanged; the same requests through an activated session must succeed","6 C35"),
+ "C37":("complete enumeration of the supported configuration set; every configuration must complete discovery, connect, read, write and read-back","6 C37"),
  "C34":("several real clients against one real server under seeded latency and scheduling; invoke/return stamped with the simulator's event sequence; porcupine register model per node","6 C34"),
 }
-PEND=[]
+ 
 m={
  "version":1,
  "setup_cmd":"export GOFLAGS=-mod=mod GOPROXY=off GOSUMDB=off GOTOOLCHAIN=local; mkdir -p bin && go1.26.8 build -o bin/check ./cmd/check && go1.26.8 build -o bin/overlaygen ./cmd/overlaygen",
